@@ -616,6 +616,64 @@ func (c *VCtx) applyContract(fr *Frame, st *State, cc *ssa.CallCommon, ct *FuncC
 				}
 			}
 		}
+		// "opt keep-held = <Type> ..." on the function under verification: the guarded state of those monitors, while
+		// this thread holds their lock, survives a call whose frame is not verified - no other thread can change it
+		// without the lock, and a callee under contract that touched it without declaring "opt holds" would fail
+		// its own lock-discipline obligations. For a guarded map the entries, and for lists stored in it their
+		// backing arrays, are kept too: that the map and the arrays are reachable only through the guarded field
+		// is an assumption (listed in the evidence).
+		type heldElems struct {
+			mref, dom, val, eold *Term
+			ks, es               Sort
+		}
+		var heldE []heldElems
+		if kh := c.contract; kh != nil && kh.Opts["keep-held"] != "" && ct.Opts["holds"] == "" {
+			var lks []string
+			for lk := range st.held {
+				lks = append(lks, lk)
+			}
+			sort.Strings(lks)
+			for _, lk := range lks {
+				for _, m := range st.held[lk].specs {
+					if !strings.Contains(" "+kh.Opts["keep-held"]+" ", " "+m.spec.Type+" ") {
+						continue
+					}
+					own, _ := c.guardedHeaps(m.spec, m.objT)
+					for _, hn := range own {
+						kept = append(kept, keep{hn, m.obj, c.name("keep", Select(c.heap(st, hn, c.heapSorts[hn]), m.obj))})
+					}
+					stt, ok := m.objT.Underlying().(*types.Struct)
+					if !ok {
+						continue
+					}
+					for i := 0; i < stt.NumFields(); i++ {
+						f := stt.Field(i)
+						mt, isMap := f.Type().Underlying().(*types.Map)
+						if !isMap || !strings.Contains(" "+strings.Join(m.spec.Guarded, " ")+" ", " "+f.Name()+" ") {
+							continue
+						}
+						c.eng.assume("the map in " + m.spec.Type + "." + f.Name() + " (and the backing arrays of the lists stored in it) is reachable only through that guarded field")
+						fh := fieldHeapName(m.objT, f.Name())
+						mref := c.name("keepmap", Select(c.heap(st, fh, c.heapSorts[fh]), m.obj))
+						dn, vn, cn := mapHeapNames(mt)
+						for _, hn := range []string{dn, vn, cn} {
+							if srt, ok := c.heapSorts[hn]; ok {
+								kept = append(kept, keep{hn, mref, c.name("keep", Select(c.heap(st, hn, srt), mref))})
+							}
+						}
+						if sl, isSl := mt.Elem().Underlying().(*types.Slice); isSl {
+							es, ks := sortOf(sl.Elem()), sortOf(mt.Key())
+							en := elemHeapName(es)
+							c.heapSorts[en] = ArrSort(SRef, ArrSort(SInt, es))
+							heldE = append(heldE, heldElems{mref,
+								c.name("keep", Select(c.heap(st, dn, ArrSort(SRef, ArrSort(ks, SBool))), mref)),
+								c.name("keep", Select(c.heap(st, vn, ArrSort(SRef, ArrSort(ks, SSlice))), mref)),
+								c.heap(st, en, c.heapSorts[en]), ks, es})
+						}
+					}
+				}
+			}
+		}
 		foreign := c.heapsOutOfReach(st, callee, args)
 		for _, hn := range c.immutableHeaps() {
 			// fields declared immutable: objects that exist keep their values; what the callee stores into objects
@@ -648,6 +706,12 @@ func (c *VCtx) applyContract(fr *Frame, st *State, cc *ssa.CallCommon, ct *FuncC
 		for _, po := range private {
 			// nor can the callee have made any ghost map refer to them
 			c.noGhostRefs(st, po.ref)
+		}
+		for _, he := range heldE {
+			en := elemHeapName(he.es)
+			enew := c.heap(st, en, c.heapSorts[en])
+			c.fact(Implies(st.pc, T(SBool, fmt.Sprintf("(forall ((q!kk %s)) (! (=> (select %s q!kk) (= (select %s (s-arr (select %s q!kk))) (select %s (s-arr (select %s q!kk))))) :pattern ((select %s q!kk))))",
+				he.ks, he.dom.S, enew.S, he.val.S, he.eold.S, he.val.S, he.val.S))))
 		}
 		c.callerOwnedFacts(st)
 		for k, v := range savedHeaps {
